@@ -4,8 +4,15 @@ property, record the outcome in seeded/<id>/result.json, and undo the change.  N
 import glob, json, os, re, subprocess, sys
 V = os.path.dirname(os.path.dirname(os.path.abspath(__file__)))
 rows = []
+only = set(sys.argv[1:])   # optional: seed ids to run (results of the others are kept from their result.json)
 for d in sorted(glob.glob(os.path.join(V, 'seeded', 'C*-*'))):
     sid = os.path.basename(d)
+    if only and sid not in only:
+        rj = os.path.join(d, 'result.json')
+        if os.path.exists(rj):
+            r0 = json.load(open(rj))
+            rows.append((sid, r0['outcome'], ', '.join(o.split('/')[-1] for o in r0.get('violated_obligations', []))[:110]))
+        continue
     prop = sid.split('-')[0]
     patch = os.path.join(d, 'patch.diff')
     st = subprocess.run(['git', '-C', '/repo', 'status', '--porcelain', '--untracked-files=no'], capture_output=True, text=True).stdout.strip()
